@@ -1,0 +1,358 @@
+//go:build verif
+// +build verif
+
+// Contracts for deductive verification (comment-only; compiled only with -tags verif).
+// A sorted set is a skip list (header, level[i].forward / span, backward, tail) plus Dict: key -> node.
+
+package zset
+
+//@ func SortedSet.Size
+//@   requires ss != nil
+//@   ensures[C07] result == ss.length
+//@   modifies nothing
+//@   safety[C07,C20] panics
+//@   pure
+
+//@ func SortedSet.sanitizeIndexes
+//@   requires ss != nil && 0 <= ss.length && ss.length < 2147483648
+//@   ensures[C07] newStart >= 1 && newEnd >= 1
+//@   ensures[C07] newStart == (start < 0 ? max(ss.length + start + 1, 1) : max(start, 1))
+//@   ensures[C07] newEnd == (end < 0 ? max(ss.length + end + 1, 1) : max(end, 1))
+//@   modifies nothing
+//@   safety[C07,C20] panics overflow
+//@   pure
+
+// Structural invariant of the skip list, stated over all nodes (not only the reachable ones, like the
+// B+ tree node invariant): a forward pointer at level i leads to a node that has more than i levels.
+//@ spec func fwdOK() bool = forall n *SortedSetNode, i int :: allocated(n) && 0 <= i && i < len(n.level) && n.level[i].forward != nil ==> len(n.level[i].forward.level) > i
+//@ spec func noHdr(ss *SortedSet) bool = (forall n *SortedSetNode, i int :: allocated(n) && 0 <= i && i < len(n.level) ==> n.level[i].forward != ss.header) &&
+//@        (forall n *SortedSetNode :: allocated(n) ==> n.backward != ss.header)
+//@ spec func zsHeap() bool = fwdOK() && lvlOwn() && ptrsAlloc()
+//@ spec func zsOK(ss *SortedSet) bool = ss != nil && ss.header != nil && 1 <= ss.level && ss.level <= SkipListMaxLevel && len(ss.header.level) == SkipListMaxLevel && ss.Dict != nil && zsHeap() && noHdr(ss)
+
+//@ func SortedSet.PeekMin
+//@   requires zsOK(ss)
+//@   ensures[C07] result == ss.header.level[0].forward
+//@   modifies nothing
+//@   safety[C07,C20] panics
+//@   pure
+
+//@ spec func fwd0(ss *SortedSet, x *SortedSetNode) bool = (x.level[0].forward != nil ==> len(x.level[0].forward.level) >= 1) && x.level[0].forward != ss.header
+//@ spec func descOK(ss *SortedSet, x *SortedSetNode, i int) bool = ss == old(ss) && -1 <= i && i < ss.level && x != nil && len(x.level) > i && len(x.level) >= 1 && fwd0(ss, x)
+
+//@ func SortedSet.searchForward
+//@   requires zsOK(ss)
+//@   ensures[C07] forall k int :: 0 <= k && k < old(len(nodes)) ==> result[k] == old(nodes[k])
+//@   ensures[C07] len(result) >= old(len(nodes)) && (limit >= 0 ==> len(result) <= old(len(nodes)) + limit)
+//@   ensures[C07] forall k int :: old(len(nodes)) <= k && k < len(result) ==> result[k] != nil && result[k] != ss.header
+//@   modifies elems(nodes)
+//@   safety[C07,C20] panics
+//@   loops 5
+//@   loop 1: modifies nothing
+//@   loop 1: invariant descOK(ss, x, i)
+//@   loop 2: modifies nothing
+//@   loop 2: invariant descOK(ss, x, i) && i >= 0
+//@   loop 3: modifies nothing
+//@   loop 3: invariant descOK(ss, x, i@2)
+//@   loop 4: modifies nothing
+//@   loop 4: invariant descOK(ss, x, i@2) && i@2 >= 0
+//@   loop 5: modifies elems(nodes)
+//@   loop 5: invariant ss == old(ss) && (arr(nodes) == arr(old(nodes)) || sinceLoop(nodes))
+//@   loop 5: invariant x != ss.header && (x != nil ==> len(x.level) >= 1 && fwd0(ss, x))
+//@   loop 5: invariant forall k int :: old(len(nodes)) <= k && k < len(nodes) ==> nodes[k] != nil && nodes[k] != ss.header
+//@   loop 5: invariant len(nodes) >= old(len(nodes)) && (forall k int :: 0 <= k && k < old(len(nodes)) ==> nodes[k] == old(nodes[k]))
+//@   loop 5: invariant old(limit) >= 0 ==> limit >= 0 && len(nodes) + limit == old(len(nodes)) + old(limit)
+//@   at stored nodes in loop 5: assert[C07] len(nodes) > 0 && nodes[len(nodes) - 1] == x && x != nil && x != ss.header
+
+//@ func SortedSet.searchReverse
+//@   requires zsOK(ss)
+//@   ensures[C07] forall k int :: 0 <= k && k < old(len(nodes)) ==> result[k] == old(nodes[k])
+//@   ensures[C07] len(result) >= old(len(nodes)) && (limit >= 0 ==> len(result) <= old(len(nodes)) + limit)
+//@   ensures[C07] forall k int :: old(len(nodes)) <= k && k < len(result) ==> result[k] != nil && result[k] != ss.header
+//@   modifies elems(nodes)
+//@   safety[C07,C20] panics
+//@   loops 5
+//@   loop 1: modifies nothing
+//@   loop 1: invariant descOK(ss, x, i)
+//@   loop 2: modifies nothing
+//@   loop 2: invariant descOK(ss, x, i) && i >= 0
+//@   loop 3: modifies nothing
+//@   loop 3: invariant descOK(ss, x, i@2)
+//@   loop 4: modifies nothing
+//@   loop 4: invariant descOK(ss, x, i@2) && i@2 >= 0
+//@   loop 5: modifies elems(nodes)
+//@   loop 5: invariant ss == old(ss) && (arr(nodes) == arr(old(nodes)) || sinceLoop(nodes))
+//@   loop 5: invariant x != nil ==> x.backward != ss.header
+//@   loop 5: invariant forall k int :: old(len(nodes)) <= k && k < len(nodes) ==> nodes[k] != nil && nodes[k] != ss.header
+//@   loop 5: invariant len(nodes) >= old(len(nodes)) && (forall k int :: 0 <= k && k < old(len(nodes)) ==> nodes[k] == old(nodes[k]))
+//@   loop 5: invariant old(limit) >= 0 ==> limit >= 0 && len(nodes) + limit == old(len(nodes)) + old(limit)
+//@   at stored nodes in loop 5: assert[C07] len(nodes) > 0 && nodes[len(nodes) - 1] == x && x != nil
+//@   at stored nodes in loop 5: assert[C07] x != ss.header
+
+// Every node owns the backing array of its level slice (made by createNode, never resliced or shared).
+//@ spec func lvlOwn() bool = (forall n *SortedSetNode :: allocated(n) ==> off(n.level) == 0 && allocated(n.level)) &&
+//@        (forall n1 *SortedSetNode, n2 *SortedSetNode :: allocated(n1) && allocated(n2) && n1 != n2 && len(n1.level) > 0 && len(n2.level) > 0 ==> arr(n1.level) != arr(n2.level))
+
+//@ extern math/rand.Int31 () (r)
+//@   ensures r >= 0
+//@   modifies nothing
+//@   pure
+//@ func randomLevel
+//@   ensures[C07] 1 <= result && result <= SkipListMaxLevel
+//@   modifies nothing
+//@   safety[C07,C20] panics
+//@   pure
+//@   loops 1
+//@   loop 1: invariant level >= 1
+
+//@ spec func onlyNew(r *SortedSetNode) bool = forall n *SortedSetNode :: allocated(n) ==> old(allocated(n)) || n == r
+//@ func createNode
+//@   requires level >= 0
+//@   ensures[C07] fresh(result) && result.key == key && result.score == score && result.Value == value && result.backward == nil
+//@   ensures[C07] len(result.level) == level && off(result.level) == 0 && fresh(result.level) && allocated(result.level) && (level > 0 ==> arr(result.level) != 0)
+//@   ensures[C07] forall i int :: 0 <= i && i < level ==> result.level[i].forward == nil && result.level[i].span == 0
+//@   ensures[C07] onlyNew(result)
+//@   modifies nothing
+//@   safety[C07,C20] panics
+
+// ptrsAlloc: every pointer stored in a node refers to an allocated node (so nothing can already point at a node
+// that is about to be allocated); maintained by every mutator like the other two parts of zsHeap.
+//@ spec func ptrsAlloc() bool = (forall n *SortedSetNode, i int :: allocated(n) && 0 <= i && i < len(n.level) ==> n.level[i].forward == nil || allocated(n.level[i].forward)) &&
+//@        (forall n *SortedSetNode :: allocated(n) ==> n.backward == nil || allocated(n.backward))
+//@ func New
+//@   requires zsHeap()
+//@   ensures[C07] fresh(result) && result.length == 0 && result.level == 1 && result.tail == nil && fresh(result.Dict) && (forall k string :: !has(result.Dict, k))
+//@   ensures[C07] result.header != nil && len(result.header.level) == SkipListMaxLevel && result.Dict != nil
+//@   ensures[C07] fwdOK()
+//@   ensures[C07] lvlOwn()
+//@   ensures[C07] ptrsAlloc()
+//@   ensures[C07] noHdr(result)
+//@   ensures[C07] onlyNew(result.header)
+//@   ensures[C07] forall i int :: 0 <= i && i < SkipListMaxLevel ==> result.header.level[i].forward == nil
+//@   ensures fresh(result.header)
+//@   modifies nothing
+//@   safety[C07,C20] panics
+
+// updOK: the predecessors collected by a descent, for the levels above i
+//@ spec func updAt(ss *SortedSet, u *SortedSetNode, k int) bool = u != nil && len(u.level) > k && allocated(u)
+
+//@ func SortedSet.deleteNode
+//@   requires zsOK(ss) && x != nil && x != ss.header && len(x.level) >= 1
+//@   requires forall k int :: 0 <= k && k < ss.level ==> updAt(ss, update[k], k)
+//@   ensures[C07] ss.length == old(ss.length) - 1 && ss.header == old(ss.header) && ss.Dict == old(ss.Dict) && onlyNew(nil) && ss.level <= old(ss.level)
+//@   ensures[C07] 1 <= ss.level && ss.level <= SkipListMaxLevel && ss.header != nil && len(ss.header.level) == SkipListMaxLevel && ss.Dict != nil
+//@   ensures[C07] fwdOK()
+//@   ensures[C07] lvlOwn()
+//@   ensures[C07] ptrsAlloc()
+//@   ensures[C07] noHdr(ss)
+//@   ensures[C07] !has(ss.Dict, x.key) && (forall k string :: k != x.key ==> has(ss.Dict, k) == old(has(ss.Dict, k)) && ss.Dict[k] == old(ss.Dict[k]))
+//@   modifies ss.level, ss.tail, ss.length, entries(ss.Dict), all(SortedSetNode.backward), allelems(ss.header.level)
+//@   safety[C07,C20] panics
+//@   loops 2
+//@   loop 1: invariant 0 <= i && i <= ss.level && ss == old(ss) && x == old(x) && zsOK(ss) && ss.level == old(ss.level) && ss.header == old(ss.header)
+//@   loop 1: invariant forall k int :: 0 <= k && k < ss.level ==> updAt(ss, update[k], k)
+//@   loop 2: modifies ss.level
+//@   loop 2: invariant ss == old(ss) && 1 <= ss.level && ss.level <= old(ss.level) && ss.header == old(ss.header)
+
+//@ spec func dictRest(ss *SortedSet, key string) bool = forall k string :: k != key ==> has(ss.Dict, k) == old(has(ss.Dict, k)) && ss.Dict[k] == old(ss.Dict[k])
+//@ func SortedSet.delete
+//@   requires zsOK(ss)
+//@   ensures[C07] ss.header == old(ss.header) && ss.Dict == old(ss.Dict) && onlyNew(nil)
+//@   ensures[C07] 1 <= ss.level && ss.level <= SkipListMaxLevel && ss.header != nil && len(ss.header.level) == SkipListMaxLevel && ss.Dict != nil
+//@   ensures[C07] fwdOK()
+//@   ensures[C07] lvlOwn()
+//@   ensures[C07] ptrsAlloc()
+//@   ensures[C07] noHdr(ss)
+//@   ensures[C07] result ==> ss.length == old(ss.length) - 1 && !has(ss.Dict, key) && dictRest(ss, key)
+//@   ensures[C07] !result ==> ss.length == old(ss.length) && unchanged(ss.Dict) && ss.level == old(ss.level) && ss.tail == old(ss.tail)
+//@   modifies ss.level, ss.tail, ss.length, entries(ss.Dict), all(SortedSetNode.backward), allelems(ss.header.level)
+//@   safety[C07,C20] panics
+//@   loops 2
+//@   loop 1: modifies elems(update)
+//@   loop 1: invariant descOK(ss, x, i) && (forall k int :: i < k && k < ss.level ==> updAt(ss, update[k], k))
+//@   loop 2: modifies elems(update)
+//@   loop 2: invariant descOK(ss, x, i) && i >= 0 && (forall k int :: i < k && k < ss.level ==> updAt(ss, update[k], k))
+
+//@ spec func insLoc(ss *SortedSet) bool = ss == old(ss) && ss.header == old(ss.header) && ss.Dict == old(ss.Dict) && ss.length == old(ss.length) &&
+//@        ss.header != nil && len(ss.header.level) == SkipListMaxLevel && allocated(ss.header)
+//@ func SortedSet.insertNode
+//@   requires zsOK(ss)
+//@   ensures[C07] fresh(result) && result != ss.header && result.key == key && result.score == score && result.Value == value && len(result.level) >= 1 && onlyNew(result)
+//@   ensures[C07] 1 <= ss.level && ss.level <= SkipListMaxLevel && ss.header != nil && len(ss.header.level) == SkipListMaxLevel && ss.Dict != nil
+//@   ensures[C07] fwdOK()
+//@   ensures[C07] lvlOwn()
+//@   ensures[C07] ptrsAlloc()
+//@   ensures[C07] noHdr(ss)
+//@   ensures[C07] ss.length == old(ss.length) + 1 && ss.header == old(ss.header) && ss.Dict == old(ss.Dict)
+//@   modifies ss.level, ss.tail, ss.length, all(SortedSetNode.backward), allelems(ss.header.level)
+//@   safety[C07,C20] panics
+//@   loops 5
+//@   loop 1: modifies elems(update), elems(rank)
+//@   loop 1: invariant descOK(ss, x, i) && allocated(x) && (forall k int :: i < k && k < ss.level ==> updAt(ss, update[k], k))
+//@   loop 2: modifies elems(update), elems(rank)
+//@   loop 2: invariant descOK(ss, x, i) && i >= 0 && allocated(x) && (forall k int :: i < k && k < ss.level ==> updAt(ss, update[k], k))
+//@   loop 3: modifies elems(update), elems(rank), allelems(ss.header.level)
+//@   loop 3: invariant fwdOK()
+//@   loop 3: invariant lvlOwn()
+//@   loop 3: invariant ptrsAlloc()
+//@   loop 3: invariant noHdr(ss)
+//@   loop 3: invariant insLoc(ss) && ss.level == old(ss.level) && 1 <= ss.level && ss.level <= i@2 && i@2 <= level && level <= SkipListMaxLevel
+//@   loop 3: invariant forall k int :: 0 <= k && k < i@2 ==> updAt(ss, update[k], k)
+//@   loop 4: modifies elems(update), elems(rank), allelems(ss.header.level)
+//@   loop 4: invariant fwdOK()
+//@   loop 4: invariant lvlOwn()
+//@   loop 4: invariant ptrsAlloc()
+//@   loop 4: invariant noHdr(ss)
+//@   loop 4: invariant insLoc(ss) && 1 <= level && level <= ss.level && ss.level <= SkipListMaxLevel && 0 <= i@3 && i@3 <= level
+//@   loop 4: invariant x != nil && x != ss.header && len(x.level) == level
+//@   loop 4: invariant forall k int :: 0 <= k && k < ss.level ==> updAt(ss, update[k], k) && update[k] != x
+//@   loop 5: modifies allelems(ss.header.level)
+//@   loop 5: invariant fwdOK()
+//@   loop 5: invariant lvlOwn()
+//@   loop 5: invariant ptrsAlloc()
+//@   loop 5: invariant noHdr(ss)
+//@   loop 5: invariant insLoc(ss) && 1 <= level && level <= i@4 && i@4 <= ss.level && ss.level <= SkipListMaxLevel
+//@   loop 5: invariant x != nil && x != ss.header && len(x.level) == level
+//@   loop 5: invariant forall k int :: 0 <= k && k < ss.level ==> updAt(ss, update[k], k) && update[k] != x
+
+// Dict: key -> member node. A member is an allocated node that is not the header, carries its key and has at least one level.
+//@ spec func dictOK(ss *SortedSet) bool = forall k string :: has(ss.Dict, k) ==> ss.Dict[k] != nil && allocated(ss.Dict[k]) && ss.Dict[k].key == k && ss.Dict[k] != ss.header && len(ss.Dict[k].level) >= 1
+//@ spec func setOK(ss *SortedSet) bool = zsOK(ss) && dictOK(ss)
+//@ spec func shape(ss *SortedSet) bool = 1 <= ss.level && ss.level <= SkipListMaxLevel && ss.header != nil && len(ss.header.level) == SkipListMaxLevel && ss.Dict != nil && ss.header == old(ss.header) && ss.Dict == old(ss.Dict)
+
+//@ func SortedSet.GetByKey
+//@   requires ss != nil
+//@   ensures[C07] has(ss.Dict, key) ==> result == ss.Dict[key]
+//@   ensures[C07] !has(ss.Dict, key) ==> result == nil
+//@   modifies nothing
+//@   safety[C07,C20] panics
+//@   pure
+
+//@ func SortedSet.PeekMax
+//@   requires ss != nil
+//@   ensures[C07] result == ss.tail
+//@   modifies nothing
+//@   safety[C07,C20] panics
+//@   pure
+
+//@ func SortedSet.Remove
+//@   requires setOK(ss)
+//@   ensures[C07] shape(ss) && onlyNew(nil)
+//@   ensures[C07] fwdOK()
+//@   ensures[C07] lvlOwn()
+//@   ensures[C07] ptrsAlloc()
+//@   ensures[C07] noHdr(ss)
+//@   ensures[C07] dictOK(ss)
+//@   ensures[C07] old(has(ss.Dict, key)) ==> result == old(ss.Dict[key]) && ((!has(ss.Dict, key) && ss.length == old(ss.length) - 1) || (unchanged(ss.Dict) && ss.length == old(ss.length)))
+//@   ensures[C07] !old(has(ss.Dict, key)) ==> result == nil && unchanged(ss.Dict) && ss.length == old(ss.length)
+//@   ensures[C07] dictRest(ss, key)
+//@   modifies ss.level, ss.tail, ss.length, entries(ss.Dict), all(SortedSetNode.backward), allelems(ss.header.level)
+//@   safety[C07,C20] panics
+
+//@ func SortedSet.Put
+//@   requires setOK(ss)
+//@   ensures[C07] result == nil && shape(ss)
+//@   ensures[C07] fwdOK()
+//@   ensures[C07] lvlOwn()
+//@   ensures[C07] ptrsAlloc()
+//@   ensures[C07] noHdr(ss)
+//@   ensures[C07] dictOK(ss)
+//@   ensures[C07] has(ss.Dict, key) && ss.Dict[key].key == key && ss.Dict[key].score == score && ss.Dict[key].Value == value
+//@   ensures[C07] dictRest(ss, key)
+//@   modifies ss.level, ss.tail, ss.length, entries(ss.Dict), all(SortedSetNode.backward), all(SortedSetNode.Value), allelems(ss.header.level)
+//@   safety[C07,C20] panics
+
+//@ func SortedSet.PopMin
+//@   requires setOK(ss)
+//@   ensures[C07,C13] result == old(ss.header.level[0].forward) && result != ss.header
+//@   ensures[C07] shape(ss) && onlyNew(nil)
+//@   ensures[C07] fwdOK()
+//@   ensures[C07] lvlOwn()
+//@   ensures[C07] ptrsAlloc()
+//@   ensures[C07] noHdr(ss)
+//@   ensures[C07] dictOK(ss)
+//@   ensures[C07] result == nil ==> unchanged(ss.Dict) && ss.length == old(ss.length)
+//@   modifies ss.level, ss.tail, ss.length, entries(ss.Dict), all(SortedSetNode.backward), allelems(ss.header.level)
+//@   safety[C07,C20] panics
+
+//@ func SortedSet.PopMax
+//@   requires setOK(ss)
+//@   ensures[C07,C13] result == old(ss.tail)
+//@   ensures[C07] shape(ss) && onlyNew(nil)
+//@   ensures[C07] fwdOK()
+//@   ensures[C07] lvlOwn()
+//@   ensures[C07] ptrsAlloc()
+//@   ensures[C07] noHdr(ss)
+//@   ensures[C07] dictOK(ss)
+//@   ensures[C07] result == nil ==> unchanged(ss.Dict) && ss.length == old(ss.length)
+//@   modifies ss.level, ss.tail, ss.length, entries(ss.Dict), all(SortedSetNode.backward), allelems(ss.header.level)
+//@   safety[C07,C20] panics
+
+//@ func SortedSet.GetByScoreRange
+//@   requires zsOK(ss)
+//@   ensures[C07] forall k int :: 0 <= k && k < len(result) ==> result[k] != nil && result[k] != ss.header
+//@   modifies nothing
+//@   safety[C07,C20] panics
+
+//@ func SortedSet.GetByRankRange
+//@   requires zsOK(ss) && 0 <= ss.length && ss.length < 2147483648
+//@   ensures[C07] forall k int :: 0 <= k && k < len(result) ==> result[k] != nil && result[k] != ss.header
+//@   ensures[C07] shape(ss) && onlyNew(nil)
+//@   ensures[C07] fwdOK()
+//@   ensures[C07] lvlOwn()
+//@   ensures[C07] ptrsAlloc()
+//@   ensures[C07] noHdr(ss)
+//@   ensures[C07] !remove ==> unchanged(ss.Dict) && ss.length == old(ss.length) && ss.level == old(ss.level) && ss.tail == old(ss.tail)
+//@   ensures[C07] old(dictOK(ss)) ==> dictOK(ss)
+//@   modifies ss.level, ss.tail, ss.length, entries(ss.Dict), all(SortedSetNode.backward), allelems(ss.header.level)
+//@   safety[C07,C20] panics
+//@   loops 4
+//@   loop 1: modifies elems(update)
+//@   loop 1: invariant descOK(ss, x, i) && allocated(x) && remove == old(remove) && (remove ==> (forall k int :: i < k && k < ss.level ==> updAt(ss, update[k], k)))
+//@   loop 2: modifies elems(update)
+//@   loop 2: invariant descOK(ss, x, i) && i >= 0 && allocated(x) && remove == old(remove) && (remove ==> (forall k int :: i < k && k < ss.level ==> updAt(ss, update[k], k)))
+//@   loop 3: modifies ss.level, ss.tail, ss.length, entries(ss.Dict), all(SortedSetNode.backward), allelems(ss.header.level), elems(nodes)
+//@   loop 3: invariant ss == old(ss) && remove == old(remove) && shape(ss) && sinceLoop(nodes)
+//@   loop 3: invariant fwdOK()
+//@   loop 3: invariant lvlOwn()
+//@   loop 3: invariant ptrsAlloc()
+//@   loop 3: invariant noHdr(ss)
+//@   loop 3: invariant onlyNew(nil)
+//@   loop 3: invariant old(dictOK(ss)) ==> dictOK(ss)
+//@   loop 3: invariant !remove ==> unchanged(ss.Dict) && ss.length == old(ss.length) && ss.level == old(ss.level) && ss.tail == old(ss.tail)
+//@   loop 3: invariant x != ss.header && (x != nil ==> allocated(x) && len(x.level) >= 1 && fwd0(ss, x))
+//@   loop 3: invariant remove ==> (forall k int :: 0 <= k && k < ss.level ==> updAt(ss, update[k], k))
+//@   loop 3: invariant forall k int :: 0 <= k && k < len(nodes) ==> nodes[k] != nil && nodes[k] != ss.header
+//@   loop 4: modifies elems(nodes)
+//@   loop 4: invariant 0 <= i@2 && j < len(nodes) && nodes == pre(nodes) && ss == old(ss) && ss.header == old(ss.header)
+//@   loop 4: invariant forall k int :: 0 <= k && k < len(nodes) ==> nodes[k] != nil && nodes[k] != ss.header
+
+//@ func SortedSet.GetByRank
+//@   requires zsOK(ss) && 0 <= ss.length && ss.length < 2147483648
+//@   ensures[C07] result != ss.header
+//@   ensures[C07] shape(ss) && onlyNew(nil)
+//@   ensures[C07] fwdOK()
+//@   ensures[C07] lvlOwn()
+//@   ensures[C07] ptrsAlloc()
+//@   ensures[C07] noHdr(ss)
+//@   ensures[C07] old(dictOK(ss)) ==> dictOK(ss)
+//@   modifies ss.level, ss.tail, ss.length, entries(ss.Dict), all(SortedSetNode.backward), allelems(ss.header.level)
+//@   safety[C07,C20] panics
+
+//@ func SortedSet.FindRank
+//@   requires setOK(ss)
+//@   ensures[C07] !has(ss.Dict, key) ==> result == 0
+//@   modifies nothing
+//@   safety[C07,C20] panics
+//@   loops 2
+//@   loop 1: modifies nothing
+//@   loop 1: invariant descOK(ss, x, i) && node == pre(node) && node != nil && key == old(key)
+//@   loop 2: modifies nothing
+//@   loop 2: invariant descOK(ss, x, i) && i >= 0 && node == pre(node) && node != nil && key == old(key)
+//@   at return #1: assert[C07] x != nil && x != ss.header && x.key == key
+
+//@ func SortedSet.FindRevRank
+//@   requires setOK(ss)
+//@   ensures[C07] !has(ss.Dict, key) ==> result == 0
+//@   modifies nothing
+//@   safety[C07,C20] panics
